@@ -30,6 +30,7 @@ def run(chk):
         rule_include(chk, pc)
     rule_args(chk)
     expanded = rule_expand_eval(chk)
+    rule_paste_eval(chk)
     rule_once(chk, rule_loader_eval(chk))
     rule_defines(chk)
     import c08
@@ -453,6 +454,15 @@ def macro_parse_model(f):
         "  F(x) x": [W, idt("F"), LP, idt("x"), RP, W, idt("x")],
         "F(x": [idt("F"), LP, idt("x")],
         "(x)": [LP, idt("x"), RP],
+        # layout inside the parameter list (spaces, comments, line splices) is not significant
+        "F(a , b) b a": [idt("F"), LP, idt("a"), W, CM, W, idt("b"), RP, W, idt("b"), W, idt("a")],
+        "F( a/**/,/**/b ) b a": [idt("F"), LP, W, idt("a"), tok("Comment"), CM, tok("Comment"), idt("b"), W, RP, W, idt("b"), W, idt("a")],
+        "F(a\\n,b) b a": [idt("F"), LP, idt("a"), tok("PhysicalEndline"), CM, idt("b"), RP, W, idt("b"), W, idt("a")],
+        "F( x ) x": [idt("F"), LP, W, idt("x"), W, RP, W, idt("x")],
+        "F( ) 1": [idt("F"), LP, W, RP, W, tok("LiteralInt", 1)],
+        "F(a,,b) a": [idt("F"), LP, idt("a"), CM, CM, idt("b"), RP, W, idt("a")],
+        "F(a b) a": [idt("F"), LP, idt("a"), W, idt("b"), RP, W, idt("a")],
+        "F(1) a": [idt("F"), LP, tok("LiteralInt", 1), RP, W, idt("a")],
     }
     out = {}
     for line, toks in lines.items():
@@ -492,6 +502,14 @@ MACRO_REF = {
     "  F(x) x": (True, 1, ["MacroArg:0"]),
     "F(x": "Err",
     "(x)": "Err",
+    "F(a , b) b a": (True, 2, ["MacroArg:1", "Whitespace", "MacroArg:0"]),
+    "F( a/**/,/**/b ) b a": (True, 2, ["MacroArg:1", "Whitespace", "MacroArg:0"]),
+    "F(a\\n,b) b a": (True, 2, ["MacroArg:1", "Whitespace", "MacroArg:0"]),
+    "F( x ) x": (True, 1, ["MacroArg:0"]),
+    "F( ) 1": (True, 0, ["LiteralInt:1"]),
+    "F(a,,b) a": "Err",
+    "F(a b) a": "Err",
+    "F(1) a": "Err",
 }
 
 
@@ -547,12 +565,22 @@ class DirectiveModel:
                 out.append(self.ident(w))
         return out
 
-    def run(self, cmd, macros, chain, cond=True):
+    def run(self, cmd, macros, chain, cond=True, included_leaves_open=False):
         I = self.I
         eff = []
+
+        def included(a):
+            eff.append(("included",))
+            if included_leaves_open:
+                # the included file opens an #if and never closes it: the state is pushed onto whatever chain it was handed
+                for x in a:
+                    x = x.get() if isinstance(x, I.Ref) else x
+                    if isinstance(x, I.Enum) and x.adt == "ConditionChain":
+                        x.fields["0"].append(I.Enum("ConditionState", "Enabled"))
+            return I.Enum("Result", "Ok", {"0": ()})
         ext = {"get_location": lambda a: I.Opaque("loc"),
                "::load": lambda a: (eff.append(("load", a[1])), I.Enum("Result", "Ok", {"0": I.Opaque("file")}))[1],
-               "preprocess_included_file": lambda a: (eff.append(("included",)), I.Enum("Result", "Ok", {"0": ()}))[1],
+               "preprocess_included_file": included,
                "mark_as_pragma_once": lambda a: (eff.append(("once",)), ())[1],
                "apply_macros": lambda a: (eff.append(("expand", a[2])), I.Enum("Result", "Ok", {"0": a[0]}))[1],
                "condition_parser::parse": lambda a: (eff.append(("eval",)), I.Enum("Result", "Ok", {"0": cond}))[1]}
@@ -596,6 +624,70 @@ def rule_redef_eval(chk, pc):
                "directive `#%s` on macros %s in chain %s gives %s, must be %s" % (name, [m.fields["name"] for m in ms], chain, (got,), (want,)), where(pc), sample={"case": name})
     for k_ in ("C12.redef/retain-by-name", "C12.redef/remove-before-push"):
         chk.ob(k_, True, "decided by the evaluated #define / #undef (C12.redef/model/*)", where(pc), trivial=True)
+    return True
+
+
+PASTE_PAIRS = [("ab", "cd"), ("x", "1"), ("1", "2"), ("row", "_major"), ("column_", "major"), ("group", "shared"), ("sta", "tic"), ("con", "st"), ("ret", "urn"), ("fal", "se"), ("tr", "ue"),
+               ("str", "uct"), ("i", "f"), ("+", "="), ("-", "-"), ("&", "&"), ("=", "="), ("1", "u"), ("1.", "5f"), ("<", "<"), ("a", "+"), ("(", ")")]
+
+
+def rule_paste_eval(chk):
+    """`##` read end to end: for pairs of token spellings (l, r), the text `l r` is cut into tokens by rssl's lexer
+    (walked by the reader), the sequence l ## r is handed to apply_macros (walked too, with rssl's unlexer, source
+    manager and lexer behind it), and the result is compared with the tokens the lexer gives for the text `lr`: one
+    token of the same kind and value when `lr` is one token, an error otherwise."""
+    import interp as I
+    f = chk.facts
+    tsnew = f.fn("new", PP, self_ty="TokenStream")
+    rte = f.fn("read_to_end", PP, self_ty="TokenStream")
+    smnew = f.fn("new", "rssl_text", self_ty="SourceManager")
+    add = f.fn("add_file", "rssl_text")
+    am = f.fn("apply_macros", PP)
+    if not (tsnew and rte and smnew and add and am):
+        return False
+    ip = I.Interp(f, max_depth=36)
+    ip.max_loop = 4096
+
+    def lex(text):
+        sm = ip.apply(smnew, [])
+        ip.apply(add, [sm, I.Enum("FileName", None, {"0": "t"}), text])
+        r = ip.apply(rte, [ip.apply(tsnew, [text, I.Enum("SourceLocation", None, {"0": 0})])])
+        if not (isinstance(r, I.Enum) and r.variant == "Ok"):
+            return sm, None
+        return sm, [t for t in r.fields["0"] if t.fields["0"].variant not in ("Whitespace", "Endline")]
+
+    def flat(t):
+        k = t.fields["0"]
+        p0 = k.fields.get("0")
+        while isinstance(p0, I.Enum):
+            p0 = p0.fields.get("0")
+        return (k.variant, p0)
+    bad = None
+    n = 0
+    for l, r_ in PASTE_PAIRS:
+        try:
+            sm, lt = lex("%s %s\n" % (l, r_))
+            _sm2, ref = lex(l + r_ + "\n")
+            if lt is None or len(lt) != 2:
+                continue
+            toks = [lt[0], I.Enum("PreprocessToken", None, {"0": I.Enum("Token", "Concat"), "1": lt[0].fields["1"]}), lt[1]]
+            out = ip.apply(am, [toks, [], False, sm])
+        except I.Unknown as e:
+            if "panicking" in str(e):
+                bad = bad or "`%s ## %s` aborts (%s)" % (l, r_, str(e)[:80])
+                continue
+            if "as_ptr_range" in str(e):
+                continue        # (a lexer error path that compares slice addresses: not modelled, see C08.lexer)
+            chk.note("C12.paste: apply_macros / the lexer is not readable on `%s ## %s` (%s); not decided by evaluation" % (l, r_, str(e)[:80]))
+            return False
+        n += 1
+        got = [flat(t) for t in out.fields["0"]] if isinstance(out, I.Enum) and out.variant == "Ok" else "error"
+        want = [flat(t) for t in ref] if ref is not None and len(ref) == 1 else "error"
+        if got != want and not bad:
+            bad = "`%s ## %s` gives %s; the text `%s%s` lexes to %s" % (l, r_, got, l, r_, want if want != "error" else "more than one token (the paste must be refused)")
+    chk.ob("C12.paste/lexes-like-the-pasted-text", bad is None, bad or "%d pastes give the token of the pasted text (keywords, operators and literals included) or are refused" % n, where(am),
+           sample={"pairs": n})
+    chk.floor("C12.floor/paste-pairs", n, 18, "token pairs pasted", where(am))
     return True
 
 
